@@ -249,6 +249,8 @@ def gen_cpp(target, ent, info, pre, oracle, max_n, repo, gen, sanitize):
         retdecl, call_assign = '%s bg_ret = 0;' % rt, 'bg_ret = '
     elif rt in ('VLabel', 'NoLabel', 'EdgeMultiplicity', 'bg_real'):
         retdecl, call_assign = '%s bg_ret = %s{};' % (rt, rt), 'bg_ret = abs_label('
+    elif rt in ('bg_vec_sz', 'bg_mat_sz'):
+        retdecl, call_assign = '%s bg_ret = %s();' % (rt, rt), 'bg_ret = abs_vec('
     else:
         retdecl, call_assign = '', ''
     close = ')' if call_assign.endswith('(') else ''
